@@ -401,14 +401,17 @@ def dupDims : List κ → List (Line κ) → Verdict
 /-- One pass over all units. -/
 def pass (f : Line κ → Verdict) (us : List (Part κ)) : Verdict := firstV (fun u => firstV f u.lines) us
 
-/-- The converter over one unit: per line the duplicate-DIM test, then the conversion of the line. -/
+/-- The converter over one unit: the conversion of the line; for a `DIM` the bounds are converted first
+(`dim_type_rules.rs` `array_to_dim_type`: `array_dimensions.convert(ctx)?`, a TypeMismatch), then the name is
+tested against the names defined so far (`on_dim_type` → `require_compact_can_be_defined`: DuplicateDefinition) —
+`DIM A(5) : DIM A("x")` is a TypeMismatch. -/
 def convUnit (Γ : Env κ) : List κ → List (Line κ) → Verdict
   | _, [] => none
   | seen, l :: rest =>
     match l with
     | .dim row a _ =>
-      if seen.contains a then some (.duplicateDefinition, row)
-      else orElse (convLine Γ l) (convUnit Γ (a :: seen) rest)
+      orElse (convLine Γ l)
+        (if seen.contains a then some (.duplicateDefinition, row) else convUnit Γ (a :: seen) rest)
     | _ => orElse (convLine Γ l) (convUnit Γ seen rest)
 
 /-- `rusty_linter::core::lint` on the fragment: converter, then `apply_linters` in its order. -/
